@@ -332,6 +332,8 @@ func checkCmd(args []string) {
 		res := runMonitor(prop, tier, "")
 		if res.Err != nil {
 			generatorFailures = append(generatorFailures, "bounded supplement: "+res.Err.Error())
+		} else if res.Evals == 0 && (prop == "C12" || prop == "C13") {
+			generatorFailures = append(generatorFailures, "bounded supplement: the monitor evaluated no case")
 		}
 		for _, f := range res.Fails {
 			name := "monitor:" + f.Case
